@@ -131,6 +131,12 @@ class TokenManager(interfaces.RequestInterface, interfaces.TokenManager):
         def on_event(ev):
             if ev.message is not None:
                 m = ev.message
+                if m.code is None or not m.code.is_response():
+                    # Stamped with the request's token and sent, it would go
+                    # to the client as a request (or ping) of ours. Raised
+                    # here, it reaches the renderer like a message that can
+                    # not be serialized does.
+                    raise ValueError("Message produced for a request is not a response")
                 # FIXME: should this code warn if token or remote are set?
                 m.token = request.token
                 m.remote = request.remote.as_response_address()
